@@ -133,6 +133,10 @@ def differential(impl, sexprs, fuel=4000, model_timeout=1800):
     res = [{"model": m, "impl": None} for m in ms]
     bad = []
     for k, ir in zip(idx, irs):
+        if ir["rc"] == 124:
+            # a time-out of a millisecond program is machine load, not behaviour: once more, alone, with a long limit
+            rc, o, e = common.run_cb(impl, ms[k]["src"], timeout=120)
+            ir = {"rc": rc, "out": o, "err": e}
         res[k]["impl"] = ir
         why = langrun.compare(ms[k], ir)
         if why:
